@@ -35,21 +35,22 @@ def pkt(s):
 
 
 def split_pkts(data):
-    """-> list of sections (split at flush), each a list of payloads; delimiters are dropped"""
-    sections, cur, i = [], [], 0
+    """-> list of sections (split at flush): (raw bytes incl. the flush, [payloads]); delimiters are dropped"""
+    sections, cur, i, start = [], [], 0, 0
     while i + 4 <= len(data):
         n = int(data[i:i + 4], 16)
         if n == 0:
-            sections.append(cur)
-            cur = []
             i += 4
+            sections.append((data[start:i], cur))
+            cur = []
+            start = i
         elif n < 4:
             i += 4
         else:
             cur.append(data[i + 4:i + n])
             i += n
     if cur:
-        sections.append(cur)
+        sections.append((data[start:], cur))
     return sections
 
 
@@ -105,29 +106,33 @@ def materialise(ctx, tmpl, case, idx, packed):
     return d
 
 
+def ls_args(prefixes):
+    return [b"symrefs", b"peel", b"unborn"] + [b"ref-prefix " + l2b(p) for p in prefixes]
+
+
 def ls_request(prefixes):
-    args = [b"symrefs", b"peel", b"unborn"] + [b"ref-prefix " + l2b(p) for p in prefixes]
     return (pkt(b"command=ls-refs\n") + pkt(b"agent=git/vh-c30\n") + b"0001" +
-            b"".join(pkt(a + b"\n") for a in args) + PKT_FLUSH + PKT_FLUSH), args
+            b"".join(pkt(a + b"\n") for a in ls_args(prefixes)) + PKT_FLUSH)
 
 
-def capture(path, version, prefixes):
-    """what git upload-pack says: (raw bytes, payload lines of the ref listing)"""
+def capture(path, version, prefix_sets):
+    """what git upload-pack says. v0/v1: (raw, [lines]); v2: one session with one ls-refs command per
+    prefix set: (raw, [lines per command])"""
     env = dict(os.environ)
     for k in list(env):
         if k.startswith("GIT_"):
             env.pop(k)
     env.update({"GIT_CONFIG_NOSYSTEM": "1", "GIT_CONFIG_GLOBAL": "/dev/null", "GIT_PROTOCOL": "version=%d" % version})
-    inp = PKT_FLUSH if version != 2 else ls_request(prefixes)[0]
-    p = subprocess.run(["git", "upload-pack", path], input=inp, env=env, stdout=subprocess.PIPE, stderr=subprocess.PIPE, timeout=120)
+    inp = PKT_FLUSH if version != 2 else b"".join(ls_request(p) for p in prefix_sets) + PKT_FLUSH
+    p = subprocess.run(["git", "upload-pack", path], input=inp, env=env, stdout=subprocess.PIPE, stderr=subprocess.PIPE, timeout=300)
     if p.returncode != 0:
         raise ToolError("git upload-pack %s failed: %s" % (path, p.stderr.decode("utf-8", "replace")[-300:]))
     secs = split_pkts(p.stdout)
     if version == 2:
-        lines = secs[1] if len(secs) > 1 else []
-    else:
-        lines = secs[0] if secs else []
-    return p.stdout, lines
+        if len(secs) != 1 + len(prefix_sets):
+            raise ToolError("git upload-pack v2 answered %d sections for %d commands" % (len(secs) - 1, len(prefix_sets)))
+        return p.stdout, [sec[1] for sec in secs[1:]]
+    return p.stdout, [secs[0][1] if secs else []]
 
 
 def by_name(refs):
@@ -173,80 +178,83 @@ def ls_remote_audit(ctx, path, version, exp):
         audit_mismatch(ctx, "ls-remote", {"path": path, "git lists refs the spec does not": sorted(extra)})
 
 
-def conversations(case, path):
-    """the conversations to hold with one world: (version, prefixes, expected)"""
-    convs = [(0, [], case["exp_v0"]), (1, [], case["exp_v0"])]
-    for v in case["v2"]:
-        convs.append((2, v["prefixes"], v["exp"]))
-    return convs
-
-
-def check_worlds(ctx, binary, tmpl, ids, cases, packed_of, n_lsremote):
-    paths = []
+def check_worlds(ctx, binary, tmpl, ids, cases, packed_of, n_lsremote, n_banner):
     with concurrent.futures.ThreadPoolExecutor(6) as ex:
         paths = list(ex.map(lambda ic: materialise(ctx, tmpl, ic[1], ic[0], packed_of(ic[0])), enumerate(cases)))
     ctx.log("materialised %d servers (read back with git for-each-ref)" % len(paths))
-    jobs = []  # (case index, version, prefixes, expected)
-    for ci, (c, p) in enumerate(zip(cases, paths)):
-        for (v, pf, exp) in conversations(c, p):
-            jobs.append((ci, v, pf, exp))
+    # sessions: (case index, version); a v2 session asks once per prefix set on the same connection
+    jobs = []
+    for ci, c in enumerate(cases):
+        jobs += [(ci, 0), (ci, 2)]
+        if ci % max(1, len(cases) // max(1, n_banner)) == 0:
+            jobs.append((ci, 1))      # literal `version 1` banner, replayed only
+    psets = lambda ci: [v["prefixes"] for v in cases[ci]["v2"]]
     with concurrent.futures.ThreadPoolExecutor(6) as ex:
-        caps = list(ex.map(lambda j: capture(paths[j[0]], j[1], j[2]), jobs))
-    # `version=1` makes git announce "version 1" first; the file transport never asks for it, so the
-    # live v1 conversation sees the v0 bytes. Both are kept: v0 bytes for the live event, the banner form for replay.
-    v0caps = {}
-    for j, (raw, lines) in zip(jobs, caps):
-        if j[1] == 0:
-            v0caps[j[0]] = (raw, lines)
-    live = [{"op": "live", "path": paths[j[0]], "version": j[1], "prefixes": j[2]} for j in jobs]
-    rep = [{"op": "replay", "wire": b2l(raw), "version": j[1], "prefixes": j[2]} for j, (raw, _l) in zip(jobs, caps)]
-    res_live = ctx.harness(binary, live, timeout=3000)
-    res_rep = ctx.harness(binary, rep, timeout=3000)
-    ctx.log("%d live conversations with git upload-pack, %d replayed from captured bytes" % (len(live), len(rep)))
+        caps = list(ex.map(lambda j: capture(paths[j[0]], j[1], psets(j[0])), jobs))
+    capof = {j: c for j, c in zip(jobs, caps)}
+    runs = []    # (kind, case index, version asked of gitoxide, wire lines per conversation, expected per conversation, harness case)
+    for ci, c in enumerate(cases):
+        exp2 = [v["exp"] for v in c["v2"]]
+        raw0, lines0 = capof[(ci, 0)]
+        raw2, lines2 = capof[(ci, 2)]
+        for v in (0, 1):
+            # the file transport never asks for `version=1`: git answers the v1 request in the v0 format
+            runs.append(("live", ci, v, lines0, [c["exp_v0"]], {"op": "live", "path": paths[ci], "version": v, "prefix_sets": []}))
+        runs.append(("live", ci, 2, lines2, exp2, {"op": "live", "path": paths[ci], "version": 2, "prefix_sets": psets(ci)}))
+        runs.append(("replay", ci, 0, lines0, [c["exp_v0"]], {"op": "replay", "wire": b2l(raw0), "version": 0, "prefix_sets": []}))
+        runs.append(("replay", ci, 2, lines2, exp2, {"op": "replay", "wire": b2l(raw2), "version": 2, "prefix_sets": psets(ci)}))
+        if (ci, 1) in capof:
+            raw1, lines1 = capof[(ci, 1)]
+            runs.append(("banner", ci, 1, lines1, [c["exp_v0"]], {"op": "replay", "wire": b2l(raw1), "version": 1, "prefix_sets": []}))
+    results = ctx.harness(binary, [r[5] for r in runs], timeout=3000)
+    ctx.log("%d sessions of gitoxide with git upload-pack (live) or its captured bytes (replay)" % len(runs))
 
     events, owner = [], []
-    banner_fail = 0
-    for k, (j, (raw, lines), rl, rr) in enumerate(zip(jobs, caps, res_live, res_rep)):
-        ci, v, pf, exp = j
+    banner = {"ok": 0, "failed": 0}
+    for (kind, ci, v, lines, exps, hc), r in zip(runs, results):
         c = cases[ci]
         srv = c["server"]
-        for kind, r in (("live", rl), ("replay", rr)):
-            wire_lines = lines
-            if kind == "live" and v == 1:
-                wire_lines = v0caps[ci][1]
-            rec = {"kind": kind, "case": {"server": srv, "version": v, "prefixes": pf, "packed": packed_of(ci)},
-                   "head": head_kind(srv, ids), "version": v, "server_text": describe(srv)}
-            if "got" not in r:
-                ctx.violation(dict(rec, classes=["crash"], what="handshake panicked/hung", result=r))
-                continue
-            g = r["got"]
-            if kind == "replay" and v == 1:
-                # literal "version 1" banner: documented shortcoming (gix_transport::client::Capabilities docs) - recorded only
-                if not g["ok"]:
-                    banner_fail += 1
-                continue
-            if v == 2 and g["ok"]:
-                want_args = [b2l(a) for a in ls_request(pf)[1]]
-                if g["ls_args"] != want_args:
-                    raise ToolError("gitoxide sent ls-refs arguments %s, the capture used %s" % (g["ls_args"], want_args))
+        rec = {"kind": kind, "case": {"server": srv, "version": v, "packed": packed_of(ci)},
+               "head": head_kind(srv, ids), "version": v, "server_text": describe(srv)}
+        if "got" not in r:
+            ctx.violation(dict(rec, classes=["crash"], what="handshake panicked/hung", result=r))
+            continue
+        g = r["got"]
+        if kind == "banner":
+            # documented shortcoming (gix_transport::client::Capabilities docs) - recorded only
+            banner["ok" if g["ok"] and g["convs"] and by_name(g["convs"][0]["refs"]) == by_name(exps[0]) else "failed"] += 1
+            continue
+        convs = g["convs"] if g["ok"] else []
+        for k, exp in enumerate(exps):
+            pf = psets(ci)[k] if v == 2 else []
+            cv = convs[k] if k < len(convs) else {"ok": False, "err": g["err"] or "earlier ls-refs command failed", "refs": [], "ls_args": []}
+            rec2 = dict(rec, prefixes=[show_bytes(p) for p in pf])
+            if v == 2 and cv["ok"] and cv["ls_args"] != [b2l(a) for a in ls_args(pf)]:
+                raise ToolError("gitoxide sent ls-refs arguments %s, the capture used %s" % (cv["ls_args"], ls_args(pf)))
             # binding A: the specification's expectation, computed by TLC from the abstract server
-            if not g["ok"] or by_name(g["refs"]) != by_name(exp):
-                ctx.violation(dict(rec, classes=["v%d" % v, "error" if not g["ok"] else "refs-differ"], err=g["err"],
-                                   expected=[show_ref(x) for x in by_name(exp)], reported=[show_ref(x) for x in by_name(g["refs"])],
+            if not cv["ok"] or by_name(cv["refs"]) != by_name(exp):
+                ctx.violation(dict(rec2, classes=["v%d" % v, "error" if not cv["ok"] else "refs-differ"], err=cv["err"],
+                                   expected=[show_ref(x) for x in by_name(exp)], reported=[show_ref(x) for x in by_name(cv["refs"])],
                                    what="refs reported by gitoxide differ from the specification's expectation for this server"))
             events.append({"version": v, "server": srv, "prefixes": pf, "unborn": True,
-                           "wire": [b2l(x) for x in wire_lines], "ok": g["ok"], "reported": g["refs"]})
-            owner.append(rec)
-        nt = [x for x in exp if x["k"] != "Direct"]
-        if nt or pf:
-            ctx.nontrivial(json.dumps([srv["head"], srv["refs"], v, pf, packed_of(ci)], sort_keys=True))
-    ctx.cov["v1_banner_replays_failed"] = banner_fail
+                           "wire": [b2l(x) for x in lines[k]], "ok": cv["ok"], "reported": cv["refs"]})
+            owner.append(rec2)
+            if pf or any(x["k"] != "Direct" for x in exp):
+                ctx.nontrivial(json.dumps([srv["head"], srv["refs"], v, pf, packed_of(ci)], sort_keys=True))
+    ctx.cov["v1_banner_replays"] = banner
 
     # binding C first: the wire must be what the specification says the server advertises
-    bad = ctx.tlc_trace("proto", "Advert_Trace", events, cfg="Advert_Audit.cfg")
+    # (one event per captured wire: live and replayed conversations saw the same bytes)
+    seen_w, audit_ev = set(), []
+    for e in events:
+        key = json.dumps([e["server"], e["version"] == 2, e["prefixes"], e["wire"]])
+        if key not in seen_w:
+            seen_w.add(key)
+            audit_ev.append(e)
+    bad = ctx.tlc_trace("proto", "Advert_Trace", audit_ev, cfg="Advert_Audit.cfg")
     if bad:
-        e = events[bad[0]]
-        audit_mismatch(ctx, "Advert (wire vs model)", {"server": owner[bad[0]]["server_text"], "version": e["version"],
+        e = audit_ev[bad[0]]
+        audit_mismatch(ctx, "Advert (wire vs model)", {"server": describe(e["server"]), "version": e["version"],
                                                        "prefixes": [show_bytes(p) for p in e["prefixes"]],
                                                        "wire": [show_bytes(w) for w in e["wire"]][:12]})
     # binding B: gitoxide's report is the specification's reading of the bytes git sent
@@ -264,7 +272,7 @@ def check_worlds(ctx, binary, tmpl, ids, cases, packed_of, n_lsremote):
         ls_remote_audit(ctx, paths[ci], 2, cases[ci]["v2"][0]["exp"])
         n += 2
     ctx.cov["git_ls_remote_audited"] = ctx.cov.get("git_ls_remote_audited", 0) + n
-    ctx.cov["wire_audited_conversations"] = ctx.cov.get("wire_audited_conversations", 0) + len(events)
+    ctx.cov["wire_audited_conversations"] = ctx.cov.get("wire_audited_conversations", 0) + len(audit_ev)
     return paths
 
 
@@ -276,25 +284,26 @@ def describe(srv):
 def run(ctx):
     binary = ctx.build("vh-c30")
     tmpl, params, ids = template(ctx)
-    maxrefs = 4 if ctx.thorough else 3
+    maxrefs = 4 if ctx.thorough else 2
     cases = ctx.tlc_gen("proto", "Advert_Gen", consts={"MaxRefs": maxrefs}, env={"PARAMS": params}, workers=6)
     cases.sort(key=lambda c: json.dumps(c["server"], sort_keys=True))
-    small = [c for c in cases if len(c["server"]["refs"]) <= (3 if ctx.thorough else 2)]
-    big = [c for c in cases if len(c["server"]["refs"]) > (3 if ctx.thorough else 2)]
+    full = 2 if ctx.thorough else 1          # executed exhaustively up to this many refs, sampled above
+    small = [c for c in cases if len(c["server"]["refs"]) <= full]
+    big = [c for c in cases if len(c["server"]["refs"]) > full]
     ctx.rng.shuffle(big)
-    chosen = small + big[: (700 if ctx.thorough else 110)]
+    chosen = small + big[: (900 if ctx.thorough else 14)]
     ctx.cov["exhaustive"] = True
     ctx.cov["servers_enumerated"] = len(cases)
     ctx.cov["servers_executed"] = len(chosen)
     # every third world has its refs packed (peeled ids then come from packed-refs)
-    check_worlds(ctx, binary, tmpl, ids, chosen, lambda i: i % 3 == 2, 12 if not ctx.thorough else 60)
+    check_worlds(ctx, binary, tmpl, ids, chosen, lambda i: i % 3 == 2, 6 if not ctx.thorough else 60, 5 if not ctx.thorough else 40)
     mid = chosen[len(chosen) // 2]
     ctx.sample({"server": describe(mid["server"]), "expected_v0": [show_ref(r) for r in mid["exp_v0"]],
                 "expected_v2": [show_ref(r) for r in mid["v2"][0]["exp"]]})
     ctx.cov["rule"] = ("A: every server of Advert_Gen with <= %d of 10 alphabet refs x 7 HEAD kinds enumerated by TLC; executed: all with <= %d refs "
                        "plus a seeded sample of the larger ones; each in 7 conversations (v0, v1, v2 x 5 prefix sets), live and replayed. "
                        "Non-trivial = the expected view contains a peeled, symbolic or unborn ref, or prefixes were sent; distinct by (server, version, prefixes, packed)."
-                       % (maxrefs, 3 if ctx.thorough else 2))
+                       % (maxrefs, full))
     ctx.assumptions += ["git 2.39.5 upload-pack is the server; its bytes are audited against the specification on every run",
                         "a literal `version 1` banner is outside the judged domain (documented shortcoming of gix-transport)",
                         "no shallow grafts, namespaces or hidden refs on the server"]
@@ -308,4 +317,4 @@ def replay(ctx, rec):
              if describe(x["server"]) == describe(c["server"])]
     if not cases:
         raise ToolError("replay: server not in the generator's space")
-    check_worlds(ctx, binary, tmpl, ids, cases, lambda i: bool(c.get("packed")), 1)
+    check_worlds(ctx, binary, tmpl, ids, cases, lambda i: bool(c.get("packed")), 1, 1)
